@@ -90,10 +90,18 @@ Definition kinds_agree (kind : nat) (L : list (list nat)) (P : list (list (nat *
   | _ => true
   end.
 
+(* kinds 1, 2, 3: L[16] = the service::extensions list AS CONFIGURED (possibly with repetitions); the
+   recorded extension set must be the one extensions.New derives from it *)
+Definition cfg_agrees (kind : nat) (L : list (list nat)) : bool :=
+  match kind with
+  | 1 | 2 | 3 => same_set (nthL 2 L) (extensions_new (nthL 16 L))
+  | _ => true
+  end.
+
 Definition model_raw (kind : nat) (L : list (list nat)) (P : list (list (nat * nat)))
   : option (list ev * list err) :=
   let g := graph_of L P in let x := extset_of L P in let o := orders_of L in let f := faults_of L in
-  if orders_tied g x o && kinds_agree kind L P then Some (collector_run_cx g x o f (cx_of L)) else None.
+  if orders_tied g x o && kinds_agree kind L P && cfg_agrees kind L then Some (collector_run_cx g x o f (cx_of L)) else None.
 
 (* ---- kind 7: a configured extension set whose dependency declarations contain a cycle:
    L = [exts; the cycle named by the implementation's error (empty when no error was returned); [panicked]], P = [deps].
@@ -147,7 +155,7 @@ Definition check_key (L : list (list nat)) (shared obs : list (nat * nat)) (mlog
 
 Definition check_shared_service (L : list (list nat)) (P : list (list (nat * nat))) : bool :=
   let shared := nthP 4 P in let obs := nthP 2 P in
-  match model_raw 2 L P with
+  match model_raw 5 L P with
   | Some (mlog, merrs) =>
       list_eqb pair_eqb (map ev_wire mlog) (filter (fun e => Nat.ltb (fst e) 7) obs) &&
       list_eqb pair_eqb (map err_wire merrs) (nthP 3 P) &&
